@@ -16,6 +16,12 @@ def _seeded_bw(seed, n, kind="standard", prefix="sd"):
     return out
 
 
+def _edge_bw(seed, n, kind="standard"):
+    rng = random.Random(900007 * seed + 3)
+    return [Entry("ed%d_%s" % (i, kind[:2]), "bytewise", kind, corpus.gen_bw_edge(rng, i), note="seeded-edge(%d)" % seed)
+            for i in range(n)]
+
+
 def _seeded_cw(seed, n, kind="standard", prefix="sc"):
     rng = random.Random(7000001 * seed + 5)
     out = []
@@ -69,6 +75,8 @@ def plan_for(prop, tier, seed):
         P.add(bw("fan"), *fams)
         for e in _seeded_bw(seed, 3 if q else 24):
             P.add(e, *fams)
+        for e in _edge_bw(seed, 24 if q else 96):
+            P.add(e, "T1")
         if not q:
             for n in ("blk_1_1", "blk_2_1", "blk_2_2", "find_reset", "hard_lm"):
                 P.add(bw(n), *fams)
@@ -163,6 +171,7 @@ def plan_for(prop, tier, seed):
         P.add(Entry("bw_val_lm", "bytewise", "longest", base, vtype="i64", values=[0, 2 ** 64 - 1, 7, 7, 9]), "T34")
         P.add(Entry("bw_val_lf", "bytewise", "first", base, vtype="u16", values=[0, 65535, 7, 7, 9]), "T34")
         P.add(bw("find_reset", suffix="_ev"), "E:m=ovl,L=2")
+        P.add(cw("astral", vtype="u16", suffix="_v"), "T34")   # 4-byte pattern chars: byte lengths
         from .hand import U_VAL_NAMES
         quick_vals = [n for n in U_VAL_NAMES if n.split("_")[1] in ("u8", "u128", "i64", "empty", "usize")]
         P.hand += ["u_val::" + h for h in (quick_vals if q else U_VAL_NAMES)]
@@ -175,6 +184,8 @@ def plan_for(prop, tier, seed):
             P.add(bw("bin", kind), *fams)
         P.add(bw("evict3", nfb=1, suffix="_n1"), *fams)
         for e in _seeded_bw(seed, 3 if q else 24):
+            P.add(e, *fams)
+        for e in _edge_bw(seed, 12 if q else 64):
             P.add(e, *fams)
         for n in ("a1", "a2", "a3", "a4", "a5", "w123"):
             P.add(cw(n), *fams)
@@ -191,7 +202,7 @@ def plan_for(prop, tier, seed):
                 P.add(cw(n), *fams)
             rng = random.Random(seed * 31 + 7)
             P.add(Entry("bw_big_st", "bytewise", "standard", corpus.gen_bw_big(rng), nfb=2), *fams)
-        P.hand += ["u_utf8::two_chars", "u_utf8::truncated_never_read", "i_bw::step_overlapping",
+        P.hand += ["u_utf8::two_chars", "u_utf8::three_chars_offsets", "i_bw::step_overlapping",
                    "i_cw::step_overlapping", "i_bw::leftmost_two_calls", "i_cw::leftmost_two_calls"]
     elif prop == "C08":
         fams = TSTD
@@ -200,7 +211,9 @@ def plan_for(prop, tier, seed):
             P.add(cw(n), *fams)
             P.add(Entry("bw_as_%s_st" % n, "bytewise", "standard", corpus.cw_fixed()[n]), *fams)
         for kind in ("longest", "first"):
-            P.add(cw("w123", kind), "T1", "T34", "T5")
+            P.add(cw("w123", kind), "T1", "T2", "T34", "T5")
+        if q:
+            P.add(cw("astral", suffix="_len"), "T34")   # 4-byte pattern chars: output byte lengths (no mapper read)
         for m in ("ovl", "find", "nosuf"):
             P.add(cw("w123", suffix="_e" + m), "E:m=%s,L=2" % m)
         P.add(cw("w123", "longest", suffix="_e"), "E:m=lm,L=2")
@@ -281,7 +294,8 @@ def plan_for(prop, tier, seed):
             for n in ("cjk", "tokyo", "astral"):
                 P.add(cw(n), *fams)
     else:
-        raise SystemExit("property %s is not claimed (see MANIFEST.json not_applicable)" % prop)
+        print("property %s is not claimed (see MANIFEST.json not_applicable)" % prop)
+        raise SystemExit(2)
     return P
 
 
@@ -298,4 +312,5 @@ U_SER_QUICK = U_SER_ALL
 
 S_LAZY_ALL = ["s_lazy::bw_find", "s_lazy::bw_overlapping", "s_lazy::bw_no_suffix",
               "s_lazy::cw_find", "s_lazy::cw_overlapping", "s_lazy::cw_no_suffix"]
-S_LAZY_QUICK = S_LAZY_ALL
+S_LAZY_QUICK = list(S_LAZY_ALL)
+S_LAZY_ALL = S_LAZY_ALL + ["s_lazy::bw_overlapping_full", "s_lazy::cw_overlapping_full"]
